@@ -357,7 +357,7 @@ theorem isActive_lt (fs : List Frame) (id : Nat) (h : isActive fs id = true) : i
 @[simp] theorem appendPut_sketch (m : Mem) (a : PutArgs) (sup reuse : Option Nat) : (m.appendPut a sup reuse).sketch = m.sketch := by
   rfl
 
-@[simp] theorem appendPut_lexDocs (m : Mem) (a : PutArgs) (sup reuse : Option Nat) : (m.appendPut a sup reuse).lexDocs = (if a.ii && m.engine && a.st then m.lexDocs ++ [m.seq + 1] else m.lexDocs) := by
+@[simp] theorem appendPut_lexDocs (m : Mem) (a : PutArgs) (sup reuse : Option Nat) : (m.appendPut a sup reuse).lexDocs = (if a.ii && m.engine && a.st then m.lexDocs ++ [m.nextFrameId] else m.lexDocs) := by
   rfl
 
 @[simp] theorem appendPut_tantivyDirty (m : Mem) (a : PutArgs) (sup reuse : Option Nat) : (m.appendPut a sup reuse).tantivyDirty = (if a.ii && m.engine && a.st then true else m.tantivyDirty) := by
